@@ -92,16 +92,29 @@ def replay(hist, vpc, universe, variant, pooling):
     client = [None]
 
     def discover(adv, error):
-        w.adv = [node(i) for i in adv]
-        evs.append({"e": "advertise", "nodes": w.adv, "error": bool(error)})
+        if adv is not None:
+            w.adv = [node(i) for i in adv]
+        evs.append({"e": "advertise", "nodes": w.adv, "error": bool(error), "malformed": error == "empty"})
         if error == "token":
             # an error line inside a well-terminated reply: the reader returns it and the client must raise
             w.cfg.cluster = lambda: ("raw", b"ERROR\n\r\nEND\r\n")
             w.begin("all")
+        elif error == "empty":
+            # a terminated reply with nothing in it
+            w.cfg.cluster = lambda: ("raw", b"\n\r\nEND\r\n")
+            w.begin("all")
+        elif error == "cut":
+            # the endpoint dies in the middle of a well-formed reply: what arrived is not a configuration
+            w.cfg.cluster = w.payload
+            full = len(b"CONFIG cluster 0 %d\r\n" % len(w.payload()) + w.payload() + b"\r\nEND\r\n")
+            cut = [full - 3, full // 2, full - 9, 25][(variant + len(evs)) % 4]
+            w.calls += 1
+            w.net.begin_call(w.calls, {("reply", 0): ("trunc", max(1, cut), True)}, "all")
         elif error:
             # a server that does not know the command answers ERROR and (here) closes the connection
             w.cfg.cluster = None
-            w.net.begin_call(0, {("reply", 0): ("trunc", 7, True)} if error == "close" else None, "all")
+            # (should the client come back for a second connection during this lookup, the endpoint is gone by then)
+            w.net.begin_call(0, {("reply", 0): ("trunc", 7, True), ("connect", 2): "refused"} if error == "close" else None, "all")
             w.calls += 1
         else:
             w.cfg.cluster = w.payload
@@ -120,7 +133,8 @@ def replay(hist, vpc, universe, variant, pooling):
             outcome = "other:" + type(e).__name__
         c = client[0]
         evs.append({"e": "discover", "outcome": outcome, "rot": [hostport(n) for n in c.hasher.nodes] if c else [],
-                    "open": w.open_nodes()})
+                    "open": w.open_nodes(),
+                    "cfgopen": sum(1 for s_ in w.net.open_sockets() if s_.server_key and s_.server_key[0] == CFG_HOST and s_.state == "connected")})
 
     def key_for(i):
         c = client[0]
@@ -155,13 +169,23 @@ def replay(hist, vpc, universe, variant, pooling):
                 for k in ["corpus-%d" % j for j in range(12)]:
                     route(k)
         elif step[0] == "error":
-            discover([], "close")
+            # for the cut reply something must be advertised (the nodes in force stay in force)
+            if (variant + len(evs)) % 2 and w.adv:
+                discover(None, "cut")
+            else:
+                discover([], "close")
         elif step[0] == "error-silent":
             discover([], "silent")
+        elif step[0] == "error-empty":
+            discover(None if w.adv else [], "empty")
         elif step[0] == "error-token":
             discover([], "token")
         elif c is None:
             continue
+        elif step[0] == "handadd":
+            # the application adds a node by hand (port as an int), under the spelling the client itself would use
+            n_ = node(step[1])
+            c.add_server((n_["ip"] if vpc else n_["fqdn"]), n_["port"])
         elif step[0] == "traffic":
             k = key_for(step[1])
             if k:
@@ -269,6 +293,8 @@ CHECK_DEADLOCK FALSE
             rnd.shuffle(cur)
         if i % 10 == 5:
             hist.insert(rnd.randrange(1, len(hist) + 1), ["error-token"])
+        if i % 10 == 7:
+            hist.insert(rnd.randrange(1, len(hist) + 1), ["error-empty"])
         if i % 10 == 0:
             # a plain memcached answers an unknown command with ERROR and keeps the connection open
             hist.insert(rnd.randrange(1, len(hist) + 1), ["error-silent"])
@@ -288,6 +314,10 @@ CHECK_DEADLOCK FALSE
                 hist = [["reconf", a], ["evict", victim], ["reconf", b], ["revive", 0], ["traffic", b[0]], ["revive", 0], ["reconf", b],
                         ["revive", 0]]
                 traces.append(replay(hist, vpc, 6, len(traces), pooling=False))
+    # a node added by hand and then advertised: it stays in the rotation like any other advertised node
+    for vpc in (True, False):
+        for (a, x, b) in (([1, 2], 3, [1, 2, 3]), ([1], 2, [2]), ([2, 3], 1, [1, 2, 3]), ([1, 2, 3], 4, [4, 2])):
+            traces.append(replay([["reconf", a], ["handadd", x], ["reconf", b], ["traffic", x], ["reconf", b]], vpc, 6, len(traces), pooling=False))
     acc, rej, st, _ = tlc.validate_traces("DiscoveryTrace", [{"h": t["h"], "ev": t["ev"]} for t in traces], chunk=3000)
     rep.set("traces_validated_against_impl", len(traces))
     rep.set("trace_states", st)
